@@ -505,6 +505,65 @@ func refReceiveUnit(suite uint16, libIsClient bool, thorough bool) harness.Unit 
 	}}
 }
 
+// refJumpUnit: the sender's output buffer grows with the largest record written so far; a record that
+// outgrows it by a wide margin takes other paths (reallocation between header and protection) than one
+// that creeps past it. Fresh connections that write (a, b, c) with a below one capacity class, b in a
+// higher one and c small again: every record must authenticate under the reference, the stream must
+// be intact and no explicit IV / nonce may repeat.
+func refJumpUnit(suite uint16, libIsClient bool) harness.Unit {
+	return harness.Unit{Name: fmt.Sprintf("keyed-peer-receives-jumps/%04x/library-client=%v", suite, libIsClient), Run: func(c *harness.Ctx) {
+		classes := []int{0, 1, 500, 1000, 2000, 4000, 8000, 16000, 16384, 33000}
+		for i, a := range classes {
+			for _, b := range classes[i+1:] {
+				for _, delta := range []int{0, 24, 48} {
+					seq := []int{a, b + delta, 3}
+					var writes [][]byte
+					var want []byte
+					for k, n := range seq {
+						w := pu.Msg(k+i, n)
+						writes = append(writes, w)
+						want = append(want, w...)
+					}
+					var peer *gmref.Peer
+					data := func(q *gmref.Peer) error {
+						peer = q
+						err := q.ReadApp(0)
+						if err == gmref.ErrClosed {
+							return nil
+						}
+						return err
+					}
+					o := tlsk.RunLibVsRef(libConfig(suite, libIsClient), libIsClient, tlsk.App{Writes: writes, Expect: -1}, refIdentity(suite, libIsClient), 55, refSetup(suite), &gmref.Script{Data: data}, nil)
+					tag := fmt.Sprintf("suite=%04x library-client=%v fresh connection writes %v", suite, libIsClient, seq)
+					c.Add("evaluations", 1)
+					c.DistinctS("nontrivial", tag)
+					if o.Lib.Panic != nil || peer == nil || !o.Lib.Complete {
+						c.Violate("keyed-peer-receive:session-failed", fmt.Sprintf("[%s] %s", tag, o.Describe()), nil, tag)
+						continue
+					}
+					if o.Ref.Res.Err != nil {
+						c.Violate(fmt.Sprintf("keyed-peer-receive:record-rejected:%04x", suite), fmt.Sprintf("[%s] the reference peer could not authenticate a record the library sent: %v after %d bytes", tag, o.Ref.Res.Err, len(peer.Received)), nil, tag)
+						continue
+					}
+					if !bytes.Equal(peer.Received, want) {
+						c.Violate(fmt.Sprintf("keyed-peer-receive:stream-differs:%04x", suite), fmt.Sprintf("[%s] the reference peer decrypted %d bytes, the library wrote %d", tag, len(peer.Received), len(want)), nil, tag)
+					}
+					seen := map[string]bool{}
+					for k, iv := range peer.PeerIVs {
+						if seen[string(iv)] {
+							c.Violate(fmt.Sprintf("keyed-peer-receive:iv-repeats:%04x", suite), fmt.Sprintf("[%s] explicit IV/nonce of protected record %d repeats an earlier one", tag, k), nil, tag)
+							break
+						}
+						seen[string(iv)] = true
+					}
+					c.Add("records_authenticated_by_reference", int64(len(peer.RecLens)))
+				}
+			}
+		}
+		c.Sample(fmt.Sprintf("suite=%04x library-client=%v: fresh connections writing (a, b, 3) for all a < b over 10 size classes x 3 offsets", suite, libIsClient))
+	}}
+}
+
 func refUnits(tier string) []harness.Unit {
 	var u []harness.Unit
 	for _, s := range []uint16{gmref.SuiteCBC, gmref.SuiteGCM, gmref.SuiteAESCBC, gmref.SuiteAESGCM, aesCBCTLS10, aesCBCTLS11} {
@@ -519,7 +578,7 @@ func refUnits(tier string) []harness.Unit {
 			for p := 0; p < parts; p++ {
 				u = append(u, refCraftedUnit(s, lc, p, parts))
 			}
-			u = append(u, refReceiveUnit(s, lc, tier == "thorough"))
+			u = append(u, refReceiveUnit(s, lc, tier == "thorough"), refJumpUnit(s, lc))
 		}
 	}
 	u = append(u, refPaddingSweepUnit(true), refPaddingSweepUnit(false))
